@@ -715,7 +715,8 @@ def main():
     chk.cov["rule"] = ("%d scenarios (fixed list + %d random: 1-4 modified fragments of 4 in 3 directories, some with >4 KiB / >8 KiB text so that several write(2) calls occur before fchmod; "
                        "operations metaflush / flush / sync / close / rewrite_fragment(i|ALL)); for EVERY logged system call of the operation: directory snapshot before it, "
                        "SIGKILL before it, and the call failed with ENOSPC, EIO, EACCES; distinct = distinct (scenario, kind, canonical trace or file classes, outcome)") % (len(scs), nrand)
-    chk.cov["exhaustive"] = "every call boundary of every scenario (kill and three errnos); scenarios sampled"
+    chk.cov["exhaustive"] = False
+    chk.cov["exhaustive_note"] = "every call boundary of every scenario is used (kill and three errnos); the scenarios themselves are sampled"
     chk.cov["distribution"] = counts
     for sc in good[:3]:
         chk.sample({"scenario": sc.desc(), "calls": sc.n, "trace": merge_writes(sc.toks), "write_chunks": sc.chunks})
